@@ -17,7 +17,7 @@ RULE = (
     "case = (binary layout of 2/4/8-byte integer and float fields, ASCII literal and date fields, any order, gaps; "
     "value list; optionally earlier records written and read through the SAME Line object first; optionally the Line reaches the layout not through its constructor but through the public setters "
     "-- constructed with an earlier layout (wider, narrower, empty, shifted, unrelated; used for 0-2 records) and given this one by line.fields = [...], constructed textual and switched by line.storage = 'BINARY', "
-    "both, or its field objects moved to their positions after construction -- a third of the mixed layouts, an eighth of the other random cases and a fixed grid: the expectation is the model's for the layout the line HAS when it writes). Line(fields, storage='BINARY').write(values) and .read(bytes) on the real code are compared with the "
+    "both, or its field objects moved to their positions after construction -- a third of the mixed layouts, an eighth of the other random cases and a fixed grid: the expectation is the model's for the layout the line HAS when it writes); optionally the values reach the field objects not (all) through Line.write(values) but through the other public routes -- handed to the field CONSTRUCTORS (value=...) with Line.write given only the first 0..n-1 of them, or assigned by field.value = v with Line.write([]) -- a third of the mixed layouts, an eighth of the other random cases and a fixed grid over field kinds x present / None / NaN / NaT: the expectation is the model's for the values the fields HOLD when the record is written. Line(fields, storage='BINARY').write(values) and .read(bytes) on the real code are compared with the "
     "model's cycle and judged by Spec.C09.holds (length = furthest field end, blank gaps, each field's bytes inside "
     "its span equal the reference encoding, read-back = integers exactly / floats rounded to the IEEE width / "
     "literals stripped / dates truncated to the format / missing numbers 0 and missing text blank). Every quick run "
@@ -103,20 +103,66 @@ def via_text(case):
     return " -- " + s + "; the record must be the one of the layout the line has when it writes"
 
 
+def mk_field_holding(fd, v):
+    """the field object of the description `fd`, built with its value handed to the CONSTRUCTOR
+    (value=...), the way the library's own tests build fields"""
+    cls = type(codec.mk_field(fd))
+    k = fd["k"]
+    if k in ("lit", "int"):
+        return cls(fd["size"], fd["start"], value=v)
+    if k == "flt":
+        return cls(fd["size"], fd["start"], fd["dec"], codec.dec_str(fd["fmt"]), codec.dec_str(fd["sep"]), value=v)
+    fmts = [codec.dec_str(f) for f in fd["fmts"]]
+    return cls(fd["size"], fd["start"], fmts[0] if len(fmts) == 1 else fmts, value=v)
+
+
+def touched_before(case):
+    """earlier records went through the SAME field objects (they no longer hold what their constructors got)"""
+    via = case.get("layout_via") or {}
+    return bool(case.get("prior")) or (via.get("how") == "moved" and bool(via.get("records")))
+
+
+def values_text(case):
+    vv = case.get("values_via")
+    if not vv:
+        return ""
+    k = min(vv.get("passed", 0), len(case["values"]))
+    if vv["how"] == "constructor" and not touched_before(case):
+        s = f"the values were handed to the field constructors (value=...) and Line.write was given the first {k} of the {len(case['values'])} values"
+    else:
+        s = f"the values were assigned by field.value = v and Line.write was given the first {k} of the {len(case['values'])} values"
+    return " -- " + s + "; the record must be the one of the values the fields hold when it is written"
+
+
 def run_impl(case):
     from cfinterface.components.line import Line
 
     try:
         with warnings.catch_warnings():
             warnings.simplefilter("ignore")
-            fs = [codec.mk_field(fd) for fd in case["fields"]]
+            nps = case.get("np_scalars", False)
+            vv = case.get("values_via")
+            if vv and vv["how"] == "constructor":
+                # the values are handed to the field constructors; Line.write gets only the first `passed` of them
+                fs = [mk_field_holding(fd, codec.dec_val(v, nps)) for fd, v in zip(case["fields"], case["values"])]
+                fs += [codec.mk_field(fd) for fd in case["fields"][len(fs):]]
+            else:
+                fs = [codec.mk_field(fd) for fd in case["fields"]]
             ln = build_line(Line, fs, case)
             # records written / read earlier through the SAME line object (a file writer reuses one Line)
             for pv in case.get("prior", []):
                 pw = ln.write([codec.dec_val(v, case.get("np_scalars", False)) for v in pv])
                 ln.read(pw)
             vals = [codec.dec_val(v, case.get("np_scalars", False)) for v in case["values"]]
-            w = ln.write(vals)
+            if vv:
+                if vv["how"] == "attribute" or touched_before(case):
+                    # assigned to the field objects themselves (also when earlier records went through
+                    # the same objects: the fields must HOLD this record's values when it is written)
+                    for f, v in zip(fs, vals):
+                        f.value = v
+                w = ln.write(vals[: vv.get("passed", 0)])
+            else:
+                w = ln.write(vals)
             r = ln.read(w)
             # pre-existing target buffers: writing a field's value again into a copy of the record
             # that ends at, just inside, or beyond the field's own span must leave the record as it is
@@ -130,8 +176,13 @@ def run_impl(case):
                     for L in {b, max(a + 1, b - 1), len(w)}:
                         if L < a + 1 or L > len(w):
                             continue
-                        f.value = v
-                        out = f.write(w[:L])
+                        if vv and vv["how"] == "constructor":
+                            # a fresh field object of the same description holding the value from its constructor
+                            g = mk_field_holding(case["fields"][fs.index(f)], v)
+                            out = g.write(w[:L])
+                        else:
+                            f.value = v
+                            out = f.write(w[:L])
                         if out != w[: max(L, b)]:
                             rewrite_bad = f"field [{a},{b}) rewritten into the first {L} bytes of its own record gave {len(out)} bytes {out!r}, the record holds {w[: max(L, b)]!r}"
                             break
@@ -163,13 +214,13 @@ def judge(case, obs, resp):
     if not resp["model_holds"]:
         return {"status": "error", "why": f"the MODEL's cycle violates Spec.C09.holds: {show(resp.get('model'))}"}
     if "exc" in obs:
-        return {"status": "oracle", "why": f"binary write/read raised {obs['exc']}: {obs.get('msg')}" + via_text(case)}
+        return {"status": "oracle", "why": f"binary write/read raised {obs['exc']}: {obs.get('msg')}" + via_text(case) + values_text(case)}
     if not resp["holds"]:
-        return {"status": "oracle", "why": f"got {show(obs)}; required {show(resp.get('model'))}" + via_text(case)}
+        return {"status": "oracle", "why": f"got {show(obs)}; required {show(resp.get('model'))}" + via_text(case) + values_text(case)}
     if obs.get("rewrite_bad"):
-        return {"status": "oracle", "why": obs["rewrite_bad"] + via_text(case)}
+        return {"status": "oracle", "why": obs["rewrite_bad"] + via_text(case) + values_text(case)}
     if not resp["agree"]:
-        return {"status": "corr", "why": f"model {show(resp.get('model'))} vs implementation {show(obs)}" + via_text(case)}
+        return {"status": "corr", "why": f"model {show(resp.get('model'))} vs implementation {show(obs)}" + via_text(case) + values_text(case)}
     return {"status": "ok", "why": ""}
 
 
@@ -197,6 +248,8 @@ def features(case, obs):
         f.append("family=" + case["fam"])
     via = case.get("layout_via")
     f.append("layout_via=" + (via["how"] + ("+records" if via.get("records") else "") if via else "constructor"))
+    vv = case.get("values_via")
+    f.append("values_via=" + (vv["how"] + ("+some_passed" if vv.get("passed") else "") if vv else "line_write"))
     return f
 
 
@@ -455,6 +508,41 @@ def layout_history_fixed():
             yield {"fields": fields, "values": values, "fam": "mixed_layout_history", "layout_via": via}
 
 
+def with_values_route(rng, case):
+    """the same case, its values reaching the field objects through the constructors (value=...) or
+    by field.value = v, Line.write being given only the first 0..n-1 of them"""
+    n = len(case["fields"])
+    how = "attribute" if touched_before(case) else rng.choice(["constructor", "constructor", "attribute"])
+    passed = rng.choice([0, 0, rng.randrange(0, n)])
+    return {**case, "values_via": {"how": how, "passed": passed}}
+
+
+def values_route_fixed():
+    """field kinds x present / None / NaN / NaT x route of the values (deterministic)"""
+    nan, nat = codec.enc_val(float("nan")), {"nat": True}
+    kinds = []
+    for size in (2, 4, 8):
+        kinds.append((codec.fd_int(size, 3), {"i": -size}, nan))
+        kinds.append((codec.fd_flt(size, 3), codec.enc_val(1.5), nan))
+    kinds.append((codec.fd_lit(6, 3), {"s": codec.enc_str("ab")}, None))
+    kinds.append((codec.fd_date(10, 3, ["%Y/%m/%d"]), codec.enc_val(datetime(2020, 1, 10)), nat))
+    for how in ("constructor", "attribute"):
+        for fd, present, missing in kinds:
+            for v in (present, None, missing):
+                for nps in (False, True):
+                    c = {"fields": [fd], "values": [v], "fam": "mixed_values_route", "values_via": {"how": how, "passed": 0}}
+                    if nps:
+                        c["np_scalars"] = True
+                    yield c
+        fields = [dict(fd, start=st) for (fd, _, _), st in zip(kinds[:2] + kinds[6:], (0, 4, 9, 12))]
+        pres = [p for _, p, _ in kinds[:2] + kinds[6:]]
+        miss = [m for _, _, m in kinds[:2] + kinds[6:]]
+        for passed in (0, 2):
+            yield {"fields": fields, "values": pres, "fam": "mixed_values_route", "values_via": {"how": how, "passed": passed}}
+            yield {"fields": fields, "values": miss, "fam": "mixed_values_route", "values_via": {"how": how, "passed": passed}}
+            yield {"fields": fields, "values": [miss[0], pres[1], pres[2], miss[3]], "fam": "mixed_values_route", "values_via": {"how": how, "passed": passed}}
+
+
 def literal_lengths():
     for size in range(1, 9):
         for w in range(0, size + 1):
@@ -496,6 +584,7 @@ def cases_of(chunk):
             sp = float_specials(size)
             yield {"fields": packed_fields("flt", size, len(sp)), "values": [codec.enc_val(v) for v in sp], "fam": "float_specials"}
         yield from layout_history_fixed()
+        yield from values_route_fixed()
     elif k == "int16":
         yield from all_int16(chunk["part"], chunk["of"])
     elif k == "float16":
@@ -505,6 +594,8 @@ def cases_of(chunk):
         # a separate stream decides how the Line reaches its layout, so the cases themselves stay as they were:
         # a third of the mixed layouts and an eighth of the others get their layout through the setters
         hrng = random.Random(chunk["seed"] * 7919 + 17)
+        # and another separate stream decides how the values reach the field objects (same proportions)
+        vrng = random.Random(chunk["seed"] * 104729 + 31)
         for i in range(chunk["n"]):
             r = i % 4
             if r == 0:
@@ -522,6 +613,8 @@ def cases_of(chunk):
                 c = {"fields": packed_fields("flt", size, len(hv)), "values": [codec.enc_val(v) for v in hv], "fam": f"float{8*size}_halfway"}
             if c["fields"] and hrng.random() < (1 / 3 if r == 0 else 1 / 8):
                 c = with_layout_history(hrng, c)
+            if c["fields"] and vrng.random() < (1 / 3 if r == 0 else 1 / 8):
+                c = with_values_route(vrng, c)
             yield c
 
 
@@ -531,6 +624,11 @@ def shrinks(case):
         yield {k: v for k, v in case.items() if k != "prior"}
         if len(case["prior"]) > 1:
             yield {**case, "prior": case["prior"][:1]}
+    vv = case.get("values_via")
+    if vv:
+        yield {k: v for k, v in case.items() if k != "values_via"}
+        if vv.get("passed"):
+            yield {**case, "values_via": {**vv, "passed": 0}}
     via = case.get("layout_via")
     if via:
         yield {k: v for k, v in case.items() if k != "layout_via"}
